@@ -1,3 +1,114 @@
-From ZV Require Import Lib.Base Model.MergeDocs.
-Theorem C16_placeholder : True. Proof. exact I. Qed.
-Print Assumptions C16_placeholder.
+(** C16 — merging and exploding shards preserves searchable content.
+    Statements only; proofs in Proofs/MergeDocsProofs.v over Model/MergeDocs.v.
+
+    [view sh] = what searches and listings can see of a shard: for every document of a live (non-tombstoned)
+    repository, in document order, the repository id and the decoded document (name, content, branch names from
+    the mask, language name from the code, sub-repository path from the index, symbols, category).
+    [merge] / [explode] model index/merge.go's merge / explode (documents re-encoded through addDocument and
+    ShardBuilder.Add against the destination builder; shards ordered by priority; tombstoned repositories
+    skipped; non-contiguous repository ids rejected).  Repositories without documents are lost by design
+    (they have no entry in [view]). *)
+From ZV Require Import Lib.Base Model.MergeDocs Proofs.MergeDocsProofs.
+From Coq Require Import Permutation.
+
+(** the merged shard shows exactly the documents of the inputs' live repositories, shard by shard in
+    priority order, each with the same name, content, branches, language, sub-repository path, symbols *)
+Theorem C16_merge_preserves :
+  forall (shards : list shard) (b : shard),
+    Forall wf_shard shards -> merge shards = Ok b ->
+    view b = flat_map view (sort_prio shards).
+Proof. intros shards b Hwf H. apply binv_view. apply merge_binv; auto. Qed.
+Print Assumptions C16_merge_preserves.
+
+(** for every input ordering: same content up to the order of the shards *)
+Theorem C16_merge_preserves_any_order :
+  forall (shards : list shard) (b : shard),
+    Forall wf_shard shards -> merge shards = Ok b ->
+    Permutation (view b) (flat_map view shards).
+Proof.
+  intros shards b Hwf H. rewrite (C16_merge_preserves shards b Hwf H).
+  apply Permutation_flat_map. apply sort_prio_perm.
+Qed.
+Print Assumptions C16_merge_preserves_any_order.
+
+(** the merged shard is again well-formed (repository ranges contiguous, masks/indices in range): it can be
+    merged or exploded again *)
+Theorem C16_merge_output_wf :
+  forall (shards : list shard) (b : shard),
+    Forall wf_shard shards -> merge shards = Ok b -> wf_shard b.
+Proof. intros shards b Hwf H. eapply binv_wf. apply merge_binv; eauto. Qed.
+Print Assumptions C16_merge_output_wf.
+
+(** exploding: one shard per live repository with documents, together showing exactly the compound's content *)
+Theorem C16_explode_preserves :
+  forall (sh : shard) (outs : list shard),
+    wf_shard sh -> explode sh = Ok outs ->
+    flat_map view outs = view sh /\ Forall (fun o => length (sh_repos o) = 1%nat) outs.
+Proof.
+  intros sh outs Hwf H. unfold explode in H.
+  destruct (explode_docs_view sh (sh_docs sh) None None [] [] outs Hwf (conj eq_refl eq_refl) (Forall_nil _) H) as [H1 H2].
+  split; auto.
+Qed.
+Print Assumptions C16_explode_preserves.
+
+(** explode after merge gives back the inputs' content *)
+Theorem C16_explode_merge_id :
+  forall (shards : list shard) (b : shard) (outs : list shard),
+    Forall wf_shard shards -> merge shards = Ok b -> explode b = Ok outs ->
+    flat_map view outs = flat_map view (sort_prio shards).
+Proof.
+  intros shards b outs Hwf Hm He.
+  destruct (C16_explode_preserves b outs (C16_merge_output_wf _ _ Hwf Hm) He) as [H _].
+  rewrite H. apply C16_merge_preserves; auto.
+Qed.
+Print Assumptions C16_explode_merge_id.
+
+(** tombstoned repositories are dropped: everything visible after a merge belongs to a live input repository *)
+Theorem C16_tombstoned_dropped :
+  forall (shards : list shard) (b : shard) (id : N) (dd : ddoc),
+    Forall wf_shard shards -> merge shards = Ok b -> In (id, dd) (view b) ->
+    exists sh r, In sh shards /\ In r (sh_repos sh) /\ sr_tomb r = false /\ sr_id r = id.
+Proof.
+  intros shards b id dd Hwf Hm Hin.
+  apply (Permutation_in _ (C16_merge_preserves_any_order _ _ Hwf Hm)) in Hin.
+  apply in_flat_map in Hin. destruct Hin as [sh [Hsh Hin]].
+  unfold view in Hin. apply in_flat_map in Hin. destruct Hin as [d [_ Hd]].
+  unfold view_doc in Hd. destruct (nth_error (sh_repos sh) (sd_repo d)) as [r|] eqn:Er; [|destruct Hd].
+  destruct (decode sh d); try (destruct Hd; fail).
+  destruct (sr_tomb r) eqn:Et; [destruct Hd|]. destruct Hd as [E|[]]. inversion E; subst.
+  exists sh, r. repeat split; auto. eapply nth_error_In; eauto.
+Qed.
+Print Assumptions C16_tombstoned_dropped.
+
+(** ---- non-vacuity *)
+Definition ex_r1 := {| sr_id := 1; sr_prio := 10; sr_tomb := false; sr_branches := [11; 12]; sr_subs := [0; 21] |}%N.
+Definition ex_r2 := {| sr_id := 2; sr_prio := 30; sr_tomb := false; sr_branches := [12]; sr_subs := [0] |}%N.
+Definition ex_r3 := {| sr_id := 3; sr_prio := 30; sr_tomb := true; sr_branches := [11]; sr_subs := [0] |}%N.
+Definition ex_doc (n : N) (repo : nat) (m : list bool) (lang sub : nat) : sdoc :=
+  {| sd_name := n; sd_content := (100 + n)%N; sd_repo := repo; sd_mask := m; sd_lang := lang; sd_sub := sub;
+     sd_syms := [(0, 3, 7)%N]; sd_cat := 1%N |}.
+Definition ex_s1 : shard := {| sh_repos := [ex_r1]; sh_langs := [41; 42]%N;
+  sh_docs := [ex_doc 1 0 [true; false] 0 0; ex_doc 2 0 [true; true] 1 1] |}.
+Definition ex_s2 : shard := {| sh_repos := [ex_r2; ex_r3]; sh_langs := [42]%N;
+  sh_docs := [ex_doc 3 0 [true] 0 0; ex_doc 4 1 [true] 0 0] |}.
+
+Ltac wf_tac := repeat constructor; eexists; repeat split; simpl; try reflexivity; try lia;
+               repeat constructor; simpl; intuition discriminate.
+Example ex_wf : Forall wf_shard [ex_s1; ex_s2].
+Proof. repeat constructor; unfold wf_shard; simpl; wf_tac. Qed.
+(** s2 (priority 30) comes first, its tombstoned repo 3 is dropped, languages are renumbered, all decoded
+    documents are preserved *)
+Example ex_merge :
+  exists b, merge [ex_s1; ex_s2] = Ok b /\ map sr_id (sh_repos b) = [2; 1]%N /\ sh_langs b = [42; 41]%N /\
+            map fst (view b) = [2; 1; 1]%N /\ map (fun e => dd_branches (snd e)) (view b) = [[12]; [11]; [11; 12]]%N /\
+            map (fun e => dd_lang (snd e)) (view b) = [42; 41; 42]%N /\ map (fun e => dd_sub (snd e)) (view b) = [0; 0; 21]%N.
+Proof. eexists. vm_compute. repeat split. Qed.
+Example ex_explode :
+  exists b outs, merge [ex_s1; ex_s2] = Ok b /\ explode b = Ok outs /\ length outs = 2%nat /\
+                 map (fun o => map fst (view o)) outs = [[2]; [1; 1]]%N.
+Proof. eexists. eexists. vm_compute. repeat split. Qed.
+(** non-contiguous repository ids are rejected, as in the Go code *)
+Example ex_noncontiguous :
+  merge [{| sh_repos := [ex_r1; ex_r2]; sh_langs := [41]%N;
+            sh_docs := [ex_doc 1 1 [true] 0 0; ex_doc 2 0 [true; false] 0 0] |}] = Err 4.
+Proof. vm_compute. reflexivity. Qed.
